@@ -399,8 +399,12 @@ Record hcase := mkHCase {
   hc_guard : bool;          (* inside the guards of machine_eq_spec / edi_eq_spec_nested *)
 }.
 
+(* the number of loop iterations that always suffices (Proofs/HierTerm.v, hier_terminates):
+   with N = size of the hierarchy + 2 and B = N*N + N, 2 * ((N * units + N) * (B + 1) + B) + 1 *)
 Definition run_fuel (ds : list decl) (us : list unt) : nat :=
-  (decls_size ds + 3) * (length us + 2) * 3 + 8.
+  let N := S (decl_size (root_decl ds)) in
+  let B := N * N + N in
+  S (((N * length us + N) * S B + B) * 2).
 
 Definition run_kind (k : mkind) (ds : list decl) (us : list unt) : list inst * term :=
   match k with
